@@ -620,6 +620,10 @@ def op_write(sim: Sim, a) -> str:
         for w in ws:
             sim.probe("warn_" + w.category.__name__)
             if isinstance(v, float) and "rounded" in str(w.message):
+                if float(f"{v:.15g}") == v:
+                    # the value has at most 15 significant digits (it survives a 15-digit decimal round trip): inside C01's domain
+                    sim.violation(f"{sim.prop if sim.prop in ('C01', 'C03') else 'C01'}.rounded_in_domain", {"kind": "float"},
+                                  f"write of {v!r} (<= 15 significant digits) made the library warn {str(w.message)!r}")
                 msg = f"generator produced a float that the library rounds: {v!r}"
                 raise HarnessError(msg)
     return "ok_grew" if grew else "ok"
